@@ -59,6 +59,12 @@ var calls = []call{
 	{"POST", "action", "/single", true, "action=sact"},
 	{"GET", "get", "/things/k1/parts/p1", false, ""},
 	{"PUT", "update", "/things/k1/parts/p1", true, ""},
+	// keys whose escaped form matters (seed C14m: the de-tunnelled request line rebuilt from the decoded path)
+	{"GET", "get", "/things/a%2Fb", false, ""},
+	{"PUT", "update", "/things/100%25", true, ""},
+	{"DELETE", "delete", "/things/%28a%3A1%2Cb%3A2%29", false, ""},
+	{"GET", "get", "/things/a%2Fb/parts/p%251", false, ""},
+	{"POST", "action", "/things/x%25y%2Fz", true, "action=eact"},
 }
 
 func headerSubset(h http.Header) map[string][]string {
